@@ -55,6 +55,7 @@ TABLES = {
     "GenFsCalls": ["scan_fs.py", REPO],
     "GenSharedState": ["scan_shared.py", REPO],
     "GenChain": ["gen_chain.py", REPO],
+    "GenCliDoc": ["gen_clidoc.py", REPO],
 }
 
 
@@ -73,8 +74,9 @@ def translate():
             rc, text, err = 124, b"", "timeout"
         if rc != 0 or not text.strip():
             # fail closed: dependants no longer compile
-            if os.path.exists(dst):
-                os.remove(dst)
+            for ext in (".v", ".vo", ".vos", ".vok", ".glob"):      # also the compiled file: a stale .vo would keep dependants alive
+                if os.path.exists(dst[:-2] + ext):
+                    os.remove(dst[:-2] + ext)
             out[name] = {"ok": False, "msg": err.strip()[-600:], "sha": None}
         else:
             write_if_changed(dst, text)
